@@ -425,6 +425,24 @@ def analyse(ctx, repo, clsname, eps_mode):
                             dom_seen[("violated", st_.lineno, "the objectives are zipped with %s, a list whose length is independent of the number of objectives: zip stops at the "
                                       "shorter argument, so with fewer entries than objectives the trailing objectives are never compared" % text(lf))] = st_
                             dom_seen.pop(("violated", st_.lineno, "zip"), None)
+    # a tolerance between coordinates: approximately-equal is not transitive, and two vectors that differ by far more than
+    # rounding error (the default relative tolerance of isclose is 1e-9, of numpy 1e-5) are treated as tied in that objective
+    for c_ in ast.walk(fn):
+        if isinstance(c_, ast.Call) and (access_path(c_.func) or "").split(".")[-1] in ("isclose", "allclose") and len(c_.args) >= 2:
+            kw_ = {k.arg: k.value for k in c_.keywords}
+            np_ = (access_path(c_.func) or "").startswith(("np.", "numpy."))
+            rel = kw_.get("rel_tol", kw_.get("rtol"))
+            ab = kw_.get("abs_tol", kw_.get("atol"))
+            try:
+                relv = fold(rel) if rel is not None else (1e-5 if np_ else 1e-9)
+                absv = fold(ab) if ab is not None else (1e-8 if np_ else 0.0)
+            except ValueError:
+                continue
+            names_ = {n_.id for a_ in c_.args[:2] for n_ in ast.walk(a_) if isinstance(n_, ast.Name)}
+            if (relv > 1e-14 or absv > 0) and not ({client_name for client_name in names_} <= {"self"}):
+                dom_seen[("violated", c_.lineno, "objective values are compared with a tolerance (%s, relative %g, absolute %g): two solutions whose values in that objective differ by much more than "
+                          "rounding error count as tied there, so a solution that is strictly better in exactly that objective is no longer reported as dominating (and 'tied within a "
+                          "tolerance' is not transitive, so neither is the relation)" % (text(c_)[:80], relv, absv))] = c_
     if unsupported:
         for (k, ln, msg), node in dom_seen.items():
             if k == "violated":
